@@ -5,11 +5,13 @@
 package ev
 
 import (
+	"context"
 	"crypto/sha256"
 	"encoding/hex"
 	"encoding/json"
 	"fmt"
 	"os"
+	"os/exec"
 	"path/filepath"
 	"sort"
 	"strconv"
@@ -398,5 +400,216 @@ func Main(run func() int, r *Run) {
 	if code != 0 {
 		r.Broken("a Test function failed or panicked (exit %d): this is a harness failure, not a verdict", code)
 	}
+	if ChildUnit() != "" {
+		os.Exit(r.SavePartial())
+	}
 	os.Exit(r.Finish())
+}
+
+// ---- child processes -------------------------------------------------------
+//
+// Explorations that run real component goroutines can die from a panic in a
+// goroutine the harness does not own (no recover possible). Such work runs in
+// child processes of the same test binary: a child explores one named unit and
+// saves a partial; the parent merges partials and turns a crashed child into a
+// violation keyed by the panic site.
+
+type partial struct {
+	Evals, States, Transitions, Traces int64
+	Nontrivial                         []string
+	Samples                            []interface{}
+	Sections                           []*Section
+	Violations                         []Violation
+	VioCount                           map[string]int
+	Broken                             []string
+	Exhaustive                         bool
+	Notes                              map[string]interface{}
+	Assumptions                        []string
+}
+
+// ChildUnit returns the unit name this process must explore, or "" in the parent.
+func ChildUnit() string { return os.Getenv("VERIF_CHILD") }
+
+// SavePartial writes this (child) run's counters to VERIF_CHILD_OUT.
+func (r *Run) SavePartial() int {
+	r.mu.Lock()
+	defer r.mu.Unlock()
+	p := partial{Evals: r.evals, States: r.states, Transitions: r.transitions, Traces: r.traces, Samples: r.samples,
+		Violations: r.violations, VioCount: r.vioKeys, Broken: r.broken, Exhaustive: r.exhaustive, Notes: r.notes}
+	for k := range r.nontrivial {
+		p.Nontrivial = append(p.Nontrivial, k)
+	}
+	for _, n := range r.secOrder {
+		p.Sections = append(p.Sections, r.sections[n])
+	}
+	b, _ := json.Marshal(p)
+	if err := os.WriteFile(os.Getenv("VERIF_CHILD_OUT"), b, 0o644); err != nil {
+		fmt.Println("cannot write partial:", err)
+		return 2
+	}
+	return 0
+}
+
+func (r *Run) mergePartial(path string) error {
+	b, err := os.ReadFile(path)
+	if err != nil {
+		return err
+	}
+	var p partial
+	if err := json.Unmarshal(b, &p); err != nil {
+		return err
+	}
+	r.mu.Lock()
+	defer r.mu.Unlock()
+	r.evals += p.Evals
+	r.states += p.States
+	r.transitions += p.Transitions
+	r.traces += p.Traces
+	for _, k := range p.Nontrivial {
+		r.nontrivial[k] = struct{}{}
+	}
+	for _, s := range p.Samples {
+		if len(r.samples) < 40 {
+			r.samples = append(r.samples, s)
+		}
+	}
+	for _, s := range p.Sections {
+		if _, ok := r.sections[s.Name]; !ok {
+			r.sections[s.Name] = s
+			r.secOrder = append(r.secOrder, s.Name)
+		}
+	}
+	for _, v := range p.Violations {
+		if _, seen := r.vioKeys[v.Key]; !seen {
+			r.violations = append(r.violations, v)
+		}
+		r.vioKeys[v.Key] += p.VioCount[v.Key]
+		for _, f := range r.known {
+			if globMatch(f.Key, v.Key) {
+				r.knownHit[f.Key] = true
+			}
+		}
+	}
+	r.broken = append(r.broken, p.Broken...)
+	if !p.Exhaustive {
+		r.exhaustive = false
+		if c, ok := p.Notes["cap"].([]interface{}); ok {
+			for _, x := range c {
+				r.notes["cap"] = appendStr(r.notes["cap"], fmt.Sprint(x))
+			}
+		}
+	}
+	return nil
+}
+
+// CrashSite extracts a stable signature from a Go crash dump: the panic
+// message class and the innermost frames belonging to the repository.
+func CrashSite(out string) (string, []string) {
+	lines := strings.Split(out, "\n")
+	msg := ""
+	start := -1
+	for i, l := range lines {
+		if strings.HasPrefix(l, "panic: ") || strings.HasPrefix(l, "fatal error: ") {
+			msg = l
+			start = i
+			break
+		}
+	}
+	if start < 0 {
+		return "", nil
+	}
+	site := ""
+	first := ""
+	for _, l := range lines[start+1:] {
+		t := strings.TrimSpace(l)
+		if first == "" && strings.Contains(t, "(") && !strings.HasPrefix(t, "goroutine ") && !strings.HasPrefix(t, "[") && !strings.HasPrefix(t, "panic(") && !strings.HasPrefix(t, "runtime.") && !strings.HasPrefix(l, "\t") {
+			first = t[:strings.LastIndex(t, "(")]
+		}
+	}
+	for _, l := range lines[start:] {
+		l = strings.TrimSpace(l)
+		if strings.HasPrefix(l, "github.com/ipfs/ipfs-cluster") && !strings.Contains(l, "verifshim") {
+			if i := strings.LastIndex(l, "("); i > 0 {
+				l = l[:i]
+			}
+			site = strings.TrimPrefix(l, "github.com/ipfs/ipfs-cluster")
+			break
+		}
+	}
+	if site == "" {
+		site = first
+	}
+	// class of the message without addresses
+	cls := msg
+	if i := strings.Index(cls, "["); i > 0 {
+		cls = cls[:i]
+	}
+	cls = strings.TrimSpace(cls)
+	end := start + 40
+	if end > len(lines) {
+		end = len(lines)
+	}
+	return cls + " @" + site, lines[start:end]
+}
+
+// RunChildren explores the named units in child processes of this test binary
+// (test function testName), at most par at a time, and merges their results.
+func (r *Run) RunChildren(testName string, units []string, par int, perChild time.Duration) {
+	type res struct {
+		unit string
+		out  []byte
+		err  error
+		file string
+	}
+	sem := make(chan struct{}, par)
+	done := make(chan res, len(units))
+	scratch := os.Getenv("VERIF_SCRATCH")
+	if scratch == "" {
+		scratch = os.TempDir()
+	}
+	for i, u := range units {
+		go func(i int, u string) {
+			sem <- struct{}{}
+			defer func() { <-sem }()
+			file := filepath.Join(scratch, fmt.Sprintf("partial-%s-%d-%d.json", r.ID, os.Getpid(), i))
+			ctx, cancel := context.WithTimeout(context.Background(), perChild)
+			defer cancel()
+			cmd := exec.CommandContext(ctx, os.Args[0], "-test.run", "^"+testName+"$", "-test.timeout=0")
+			cmd.Env = append(os.Environ(), "VERIF_CHILD="+u, "VERIF_CHILD_OUT="+file)
+			out, err := cmd.CombinedOutput()
+			if ctx.Err() != nil {
+				err = fmt.Errorf("child timed out after %s", perChild)
+			}
+			done <- res{u, out, err, file}
+		}(i, u)
+	}
+	results := map[string]res{}
+	for range units {
+		x := <-done
+		results[x.unit] = x
+	}
+	for _, u := range units {
+		x := results[u]
+		merged := r.mergePartial(x.file) == nil
+		os.Remove(x.file)
+		// relay the child's report lines
+		for _, l := range strings.Split(string(x.out), "\n") {
+			if strings.HasPrefix(l, "VIOLATION ") || strings.HasPrefix(l, "KNOWN-FINDING:") || strings.HasPrefix(l, "  key:") || strings.HasPrefix(l, "E1 ") || strings.HasPrefix(l, "E2 ") || strings.HasPrefix(l, "NOTE:") {
+				fmt.Println(l)
+			}
+		}
+		if merged {
+			continue
+		}
+		if site, dump := CrashSite(string(x.out)); site != "" {
+			r.Violation(r.ID+"|"+u+"|crash:"+site, map[string]interface{}{"unit": u, "crash": dump})
+			r.NotExhaustive(u + ": exploration ended by a crash of the code under test")
+			continue
+		}
+		tail := string(x.out)
+		if len(tail) > 2500 {
+			tail = tail[len(tail)-2500:]
+		}
+		r.Broken("child for unit %s failed without a result (%v):\n%s", u, x.err, tail)
+	}
 }
